@@ -44,6 +44,8 @@ func vC01ErrTerm(err error) string {
 	switch {
 	case errors.Is(err, vC01ErrDname):
 		return "(EDnameLeg 98)"
+	case strings.HasPrefix(err.Error(), "DNAME target resolution failed"):
+		return "(EDnameLeg 2)"
 	case errors.Is(err, dnssec.ErrNoDNSKEY):
 		return "ENoDNSKEY"
 	case errors.Is(err, dnssec.ErrMissingKSK):
@@ -821,7 +823,13 @@ func vC01MidCase(rnd *rand.Rand, r *Resolver, tr *vC01Trace) {
 				resp.Answer = append(resp.Answer, &dns.CNAME{Hdr: dns.RR_Header{Name: qname, Rrtype: dns.TypeCNAME, Class: dns.ClassINET, Ttl: 300}, Target: "www.t.other."})
 				tm := x.newMsg("www.t.other.", dns.TypeA)
 				tm.AuthenticatedData = rnd.Intn(2) == 0
-				switch rnd.Intn(4) {
+				switch rnd.Intn(5) {
+				case 4: // the target leg failed in its own resolution: a SERVFAIL message carrying the reason as an Extended DNS Error
+					tm.Rcode = dns.RcodeServerFailure
+					tm.AuthenticatedData = false
+					tm.SetEdns0(dnsutil.DefaultMsgSize, true)
+					dnsutil.SetEDE(tm, dns.ExtendedErrorCodeDNSBogus, "RRsets covered by RRSIG are missing")
+					kinds = append(kinds, "dname-leg-servfail")
 				case 0:
 					tm.Rcode = dns.RcodeNameError
 					tm.Ns = []dns.RR{&dns.SOA{Hdr: dns.RR_Header{Name: "other.", Rrtype: dns.TypeSOA, Class: dns.ClassINET, Ttl: 60}, Ns: "n.", Mbox: "m."}}
